@@ -64,10 +64,19 @@ class C17(Prop):
         if tier == "quick":
             return [Layer("IG(<=3 rules) all orders x all optim", e(lambda: GI.ig_cases(0, 3)), rep=rep,
                           policies=["natural@full", "1@full", "2@full"]),
+                    Layer("duplication chains (4 non-terminals, 1 end + 3 duplication rules), every 3rd",
+                          e(lambda: (c for k, c in enumerate(GI.dup_chain_cases()) if k % 3 == 0)),
+                          policies=["natural@dup", "1@dup"]),
+                    Layer("stack chains (<=5 push/pop steps, optional extra consumption rule)", e(GI.stack_chain_cases),
+                          policies=["natural@dup", "1@dup"]),
                     Layer("IG(<=2 rules) x regular", i(lambda: GI.ig_cases(1, 2)), rep=rep, policies=["natural@few"])]
         return [Layer("IG(<=3 rules) all orders x all optim", e(lambda: GI.ig_cases(0, 3)), rep=rep,
                       policies=["natural@full", "1@full", "2@full", "s%d@full" % seed]),
                 Layer("IG(4 rules)", e(lambda: GI.ig_cases(4, 4)), rep=rep, policies=["natural", "1"]),
+                Layer("duplication chains (4 non-terminals, 1 end + 3 duplication rules)", e(GI.dup_chain_cases),
+                      policies=["natural@full", "1@full", "2@full", "3@full"]),
+                Layer("stack chains (<=6 push/pop steps, optional extra consumption rule)",
+                      e(lambda: GI.stack_chain_cases(6, 4)), policies=["natural@full", "1@full"]),
                 Layer("IG(3 rules)/4 x regular", i(lambda: (c for k, c in enumerate(GI.ig_cases(3, 3)) if k % 4 == 0)),
                       rep=rep, policies=["natural"]),
                 Layer("IG(<=2 rules) x regular", i(lambda: GI.ig_cases(1, 2)), rep=None, policies=three)]
@@ -119,10 +128,13 @@ class C17(Prop):
         want = ref["empty"]
         n = len(case[1][0])
         full = ctx.variant == "full"
+        dup = ctx.variant == "dup"
         for oi, order in enumerate(self.orders(n)):
             for optim in range(9):
                 if not full and oi > 0 and optim not in (0, 7):
                     continue        # quick: every rule order x optim {0, 7}; the given order x every optim
+                if dup and optim not in (0, 3, 7):
+                    continue        # larger shape families: optim 0, 3, 7 on the listed rule orders
                 def build():
                     rl = lib_rules(case[1])
                     return IndexedGrammar(Rules([rl[i] for i in order], optim))
